@@ -252,6 +252,7 @@ def check_conflict_map(rep):
     rz = [r for r in raises_of(cm) if raise_type(r) == 'NameError']
     ok = False
     built_by = []
+    conflict_lists = set()
     for r in rz:
         for t, p in conds(cm, r):
             if p is True and isinstance(t, ast.Name):
@@ -267,6 +268,7 @@ def check_conflict_map(rep):
                                                   (isinstance(flt[0], ast.UnaryOp) and isinstance(flt[0].op, ast.Not) and _is_multi(flt[0].operand, False, ps_))):
                                 ok = True
                                 built_by.append(st_)
+                                conflict_lists.add(t.id)
                 # ... or loop with a test
                 for lp in [s for s in stmts_of(cm.node) if isinstance(s, ast.For) and norm(unwrap(s.iter)) == P + '.items()'
                            and isinstance(s.target, ast.Tuple) and len(s.target.elts) == 2]:
@@ -277,11 +279,19 @@ def check_conflict_map(rep):
                         # (and every entry with several providers reaches an append: the test is the only condition)
                         ok = True
                         built_by.append(lp)
+                        conflict_lists.add(t.id)
     rep.check('R04.a', fkey(cm, 'conflicts'), ok, 'any name with more than one provider raises NameError' if ok else
               'a name with several providers does not (always) raise NameError', cm.mod, rz[0] if rz else cm.node)
     chain.check_raise_total(rep, 'R04.a', cm, rz, 'the NameError for conflicting provides')
     if rz:
         ifs = [s for s in stmts_of(cm.node) if isinstance(s, ast.If) and any(r in list(ast.walk(s)) for r in rz)]
+        # ``if not conflicts: return True`` + ``raise NameError`` is the same test with the branches swapped: the ``if`` whose
+        # test on the list of conflicts is what the raise stands under (as a path condition), though not inside it
+        for r in rz:
+            for t, p in conds(cm, r):
+                if p is True and isinstance(t, ast.Name) and t.id in conflict_lists:
+                    ifs.extend(s for s in stmts_of(cm.node) if isinstance(s, ast.If) and s not in ifs and
+                               chain._strip_not(s.test)[0] is t)
         ok = bool(ifs) and cfg.must_pass(cfg.nodes_of_all(ifs), cfg.entry, cfg.exit, normal_only=True) and \
             all(cfg.must_pass(cfg.nodes_of(outer[0]), cfg.entry, cfg.nodes_of(i)) for i in ifs) and \
             all(cfg.must_pass(cfg.nodes_of(outer[0]), cfg.entry, cfg.nodes_of(b)) and
@@ -525,9 +535,20 @@ def check_slots(rep):
     def slots_of(f, depth=0):
         """The slot names whose functions ``f`` examines: a loop over a constant table of names (or of tuples, the column
         that is looked up with getattr), written in ``f`` or in a generator of the module that ``f`` loops over."""
+        sites = []
         for s in stmts_of(f.node):
-            if not isinstance(s, ast.For):
-                continue
+            if isinstance(s, ast.For):
+                sites.append(s)
+            # a comprehension's clauses are loops too (``[a for _, fn in table_or_generator(mw) for a in names(fn)]``): each clause
+            # stands for a ``for`` whose body is the rest of the comprehension
+            for c in [n for x in ast.iter_child_nodes(s) if isinstance(x, ast.expr) for n in ast.walk(x)]:
+                if isinstance(c, (ast.ListComp, ast.SetComp, ast.GeneratorExp, ast.DictComp)):
+                    rest = [c.key, c.value] if isinstance(c, ast.DictComp) else [c.elt]
+                    for i, g in enumerate(c.generators):
+                        body = [ast.Expr(value=x) for x in list(g.ifs) + [h.iter for h in c.generators[i + 1:]] +
+                                [y for h in c.generators[i + 1:] for y in h.ifs] + rest]
+                        sites.append(ast.For(target=g.target, iter=g.iter, body=body, orelse=[]))
+        for s in sites:
             v = repo.try_fold(s.iter, f.mod)
             if isinstance(v, (tuple, list)) and v and all(isinstance(x, str) for x in v):
                 return tuple(v)
